@@ -23,9 +23,17 @@
    concurrent lookup = alloc / set slot / add item / inc / dec), add and delete dictionary items.
    It is reference-count correct: it only drops references that exist and are not ours (HVar).
 
-   Tuples: an item borrowed from a tuple (PyTuple_GET_ITEM) is identified with the tuple itself by the
-   extractor (tuples are immutable, so the item lives exactly as long as the tuple is kept alive; the
-   extractor refuses any use of such an item other than passing it on).
+   BORROWED ITEMS, per container:
+     * tuple   (EFetchTuple v t, PyTuple_GET_ITEM): tuples are immutable (nobody, the environment
+               included, adds to or removes from a tuple object), so the item is owned BY t for as long
+               as t exists: v may be used while WE OWN t (status SVia t), across any may-call point.  An
+               item of a tuple we do not own is rejected outright.
+     * dict value / list item (EFetchItem v d, PyDict_GetItem / PyList_GET_ITEM; for containers that
+               live in the module state: EFetchSlot through a pseudo owner slot): the container is
+               mutable, so v is good only until the next may-call point (status SFresh), however well
+               the container itself is owned, unless it is INCREF'd.
+   After a call of another function of the skeleton (its summary, [expand]) no tuple-item borrow is
+   kept (EForget): sound, and no extracted caller needs one.
 
    [D] is the static ownership discipline (an abstract interpretation of one path).
    Executable definitions only; the theorems are in Proofs/Own.v. *)
@@ -39,6 +47,8 @@ Definition obj := nat.
 Inductive ev :=
 | EFetchSlot (v : var) (s : slot)     (* v = self->slot                      (borrowed) *)
 | EFetchItem (v d : var)              (* v = PyDict_GetItem(d, ..) hit       (borrowed from the container) *)
+| EFetchTuple (v t : var)             (* v = PyTuple_GET_ITEM(t, i)          (borrowed from the immutable t) *)
+| EForget                             (* every tuple-item borrow is given up (part of a call summary) *)
 | ENewRef (v : var)                   (* v = call returning a new reference (a fresh or an existing object) *)
 | EIncref (v : var)
 | EDecref (v : var)                   (* Py_DECREF / XDECREF / CLEAR of a local; may run a destructor *)
@@ -83,6 +93,7 @@ Definition ref_eqb (a b : ref) : bool := holder_eqb (fst a) (fst b) && Nat.eqb (
 Record st := mkSt {
   refs : list ref;
   freed : list obj;
+  tuples : list obj;               (* the immutable containers *)
   next : obj;                      (* every object mentioned anywhere is < next *)
   venv : list (var * obj)
 }.
@@ -109,10 +120,10 @@ Definition slot_get (s : st) (sl : slot) : option obj :=
   | None => None
   end.
 
-Definition set_refs (s : st) (rs : list ref) : st := mkSt rs (freed s) (next s) (venv s).
+Definition set_refs (s : st) (rs : list ref) : st := mkSt rs (freed s) (tuples s) (next s) (venv s).
 Definition add_ref (s : st) (r : ref) : st := set_refs s (r :: refs s).
 Definition set_var (s : st) (v : var) (o : obj) : st :=
-  mkSt (refs s) (freed s) (next s) ((v, o) :: venv s).
+  mkSt (refs s) (freed s) (tuples s) (next s) ((v, o) :: venv s).
 
 (* the items of a freed container are handed to the environment *)
 Definition orphan (c : obj) (rs : list ref) : list ref :=
@@ -122,25 +133,28 @@ Definition orphan (c : obj) (rs : list ref) : list ref :=
 Definition release (s : st) (r : ref) : st :=
   let rs := remove1 r (refs s) in
   if has_ref rs (snd r) then set_refs s rs
-  else mkSt (orphan (snd r) rs) (snd r :: freed s) (next s) (venv s).
+  else mkSt (orphan (snd r) rs) (snd r :: freed s) (tuples s) (next s) (venv s).
 
-Definition alloc (s : st) (h : holder) : st * obj :=
+(* a new object held by h; when it is a tuple it is born with its items (the live ones of [items]) *)
+Definition alloc (s : st) (h : holder) (tup : bool) (items : list obj) : st * obj :=
   let o := next s in
-  (mkSt ((h, o) :: refs s) (freed s) (S o) (venv s), o).
+  let its := filter (fun i => has_ref (refs s) i) items in
+  (mkSt ((h, o) :: map (fun i => (HItem o, i)) its ++ refs s) (freed s)
+        (if tup then o :: tuples s else tuples s) (S o) (venv s), o).
 
 (* ------------------------------------------------------------------ environment *)
 Inductive estep :=
-| XAlloc                                  (* a new object held by the environment *)
+| XAlloc (tup : bool) (items : list obj)  (* a new object (a tuple with these items, or not) held by the environment *)
 | XIncExt (o : obj)
 | XDecExt (o : obj)
 | XClearSlot (s : slot)
 | XSetSlot (s : slot) (o : obj)
-| XAddItem (c o : obj)
-| XDelItem (c o : obj).
+| XAddItem (c o : obj)                    (* not on tuples *)
+| XDelItem (c o : obj).                   (* not on tuples *)
 
 Definition env_step (s : st) (x : estep) : st :=
   match x with
-  | XAlloc => fst (alloc s HExt)
+  | XAlloc tup items => fst (alloc s HExt tup items)
   | XIncExt o => if live s o then add_ref s (HExt, o) else s
   | XDecExt o => if has (refs s) (HExt, o) then release s (HExt, o) else s
   | XClearSlot sl => match slot_get s sl with Some o => release s (HSlot sl, o) | None => s end
@@ -148,15 +162,19 @@ Definition env_step (s : st) (x : estep) : st :=
                      | Some _ => s
                      | None => if live s o then add_ref s (HSlot sl, o) else s
                      end
-  | XAddItem c o => if live s c && live s o then add_ref s (HItem c, o) else s
-  | XDelItem c o => if has (refs s) (HItem c, o) then release s (HItem c, o) else s
+  | XAddItem c o => if live s c && live s o && negb (mem c (tuples s)) then add_ref s (HItem c, o) else s
+  | XDelItem c o => if has (refs s) (HItem c, o) && negb (mem c (tuples s)) then release s (HItem c, o) else s
   end.
 
 Definition env_run (s : st) (xs : list estep) : st := fold_left env_step xs s.
 
 (* what the rest of the world does: the k-th opportunity gets the step list [o_env k];
    the k-th choice (which item a fetch finds, which object a call returns) is [o_pick k] *)
-Record oracle := mkOracle { o_env : nat -> list estep; o_pick : nat -> nat }.
+Record oracle := mkOracle {
+  o_env : nat -> list estep;
+  o_pick : nat -> nat;
+  o_new : nat -> bool * list obj      (* what a freshly created object is: a tuple?  its items *)
+}.
 
 (* ------------------------------------------------------------------ the thread *)
 Inductive fault :=
@@ -206,11 +224,21 @@ Definition step (strict : bool) (orc : oracle) (s : st) (k : nat) (e : ev) : out
         | Some o => Running (set_var s v o) (S k)
         | None => Infeasible
         end)
+  | EFetchTuple v t =>
+      with_obj s t (fun c =>
+        if mem c (tuples s) then
+          match nth_error (items_of s c) (o_pick orc k) with
+          | Some o => Running (set_var s v o) (S k)
+          | None => Infeasible
+          end
+        else Infeasible)          (* PyTuple_GET_ITEM on something that is not a tuple: outside the model *)
+  | EForget => Running s k
   | ENewRef v =>
       let o := o_pick orc k in
       if live s o
       then Running (set_var (add_ref s (HVar v, o)) v o) (S k)
-      else let '(s1, o1) := alloc s (HVar v) in Running (set_var s1 v o1) (S k)
+      else let '(s1, o1) := alloc s (HVar v) (fst (o_new orc k)) (snd (o_new orc k)) in
+           Running (set_var s1 v o1) (S k)
   | EIncref v => with_obj s v (fun o => Running (add_ref s (HVar v, o)) k)
   | EDecref v =>
       match lookup (venv s) v with
@@ -282,7 +310,7 @@ Definition step (strict : bool) (orc : oracle) (s : st) (k : nat) (e : ev) : out
       | None => Fault (UseUnset v)
       | Some o =>
           if has (refs s) (HVar v, o)
-          then Running (mkSt ((HVar r, o) :: remove1 (HVar v, o) (refs s)) (freed s) (next s) ((r, o) :: venv s)) k
+          then Running (mkSt ((HVar r, o) :: remove1 (HVar v, o) (refs s)) (freed s) (tuples s) (next s) ((r, o) :: venv s)) k
           else Fault (OverRelease v)
       end
   | EReturn r =>
@@ -328,6 +356,7 @@ Definition balanced (params : list var) (s : st) : bool :=
 Inductive vstat :=
 | SStale               (* unset, or a pointer that may dangle *)
 | SFresh               (* borrowed, nothing ran since it was fetched *)
+| SVia (t : var)       (* an item of the tuple t: good while we own t *)
 | SOwned (n : nat).    (* we hold n + 1 references through this variable *)
 
 Record dst := mkD {
@@ -348,6 +377,7 @@ Definition is_owned (x : vstat) : bool := match x with SOwned _ => true | _ => f
 Definition valid (d : dst) (v : var) : bool :=
   match stat d v with
   | SFresh | SOwned _ => true
+  | SVia t => is_owned (stat d t)
   | SStale => false
   end.
 
@@ -358,10 +388,24 @@ Definition invalidate (d : dst) : dst :=
   mkD (map (fun p => match snd p with SFresh => (fst p, SStale) | _ => p end) (d_stat d))
       [] [].
 
+(* t stops being owned, starts being owned or is overwritten: items borrowed from it are given up *)
+Definition unvia (t : var) (d : dst) : dst :=
+  mkD (map (fun p => match snd p with
+                     | SVia u => if Nat.eqb u t then (fst p, SStale) else p
+                     | _ => p
+                     end) (d_stat d))
+      (d_empty d) (d_full d).
+
+(* v is overwritten with a pointer of status x *)
+Definition reassign (d : dst) (v : var) (x : vstat) : dst := set_stat (unvia v d) v x.
+
+Definition forget (d : dst) : dst :=
+  mkD (map (fun p => match snd p with SVia _ => (fst p, SStale) | _ => p end) (d_stat d)) (d_empty d) (d_full d).
+
 (* give up one reference held through v; [after] is the status when it was the last one *)
 Definition drop_one (d : dst) (v : var) (after : vstat) : option dst :=
   match stat d v with
-  | SOwned 0 => Some (set_stat d v after)
+  | SOwned 0 => Some (set_stat (unvia v d) v after)
   | SOwned (S n) => Some (set_stat d v (SOwned n))
   | _ => None
   end.
@@ -369,14 +413,21 @@ Definition drop_one (d : dst) (v : var) (after : vstat) : option dst :=
 Definition dstep (strict : bool) (d : dst) (e : ev) : option dst :=
   match e with
   | EFetchSlot v s =>
-      if negb (is_owned (stat d v)) && mem s (d_full d) then Some (set_stat d v SFresh) else None
+      if negb (is_owned (stat d v)) && mem s (d_full d) then Some (reassign d v SFresh) else None
   | EFetchItem v c =>
-      if negb (is_owned (stat d v)) && valid d c then Some (set_stat d v SFresh) else None
+      if negb (is_owned (stat d v)) && valid d c then Some (reassign d v SFresh) else None
+  | EFetchTuple v t =>
+      if negb (is_owned (stat d v)) && is_owned (stat d t) && negb (Nat.eqb v t)
+      then Some (reassign d v (SVia t)) else None
+  | EForget => Some (forget d)
   | ENewRef v =>
-      if negb (is_owned (stat d v)) then Some (set_stat d v (SOwned 0)) else None
+      if negb (is_owned (stat d v)) then Some (reassign d v (SOwned 0)) else None
   | EIncref v =>
       if valid d v then
-        Some (set_stat d v (match stat d v with SOwned n => SOwned (S n) | _ => SOwned 0 end))
+        Some (match stat d v with
+              | SOwned n => set_stat d v (SOwned (S n))
+              | _ => reassign d v (SOwned 0)
+              end)
       else None
   | EDecref v => option_map invalidate (drop_one d v SStale)
   | EMayCall => Some (invalidate d)
@@ -397,7 +448,7 @@ Definition dstep (strict : bool) (d : dst) (e : ev) : option dst :=
   | ECall _ _ _ => None
   | EMoveRef r v =>
       if negb (is_owned (stat d r)) && negb (Nat.eqb r v) then
-        option_map (fun d1 => set_stat d1 r (SOwned 0)) (drop_one d v SStale)
+        option_map (fun d1 => reassign d1 r (SOwned 0)) (drop_one d v SStale)
       else None
   | EReturn r =>
       match r with
@@ -446,7 +497,7 @@ Fixpoint somes {A} (l : list (option A)) : list A :=
 Definition expand_ev (e : ev) : list ev :=
   match e with
   | ECall _ args ret =>
-      map EUse (somes args) ++ [EMayCall] ++ map EUse (somes args) ++
+      map EUse (somes args) ++ [EMayCall; EForget] ++ map EUse (somes args) ++
       match ret with Some v => [ENewRef v] | None => [] end
   | _ => [e]
   end.
